@@ -36,7 +36,7 @@ func genSetup(r *kit.Rand, inFunc bool) []string {
 	if r.Chance(1, 2) {
 		add(kit.Pick(r, []string{"readonly r1=rv", "declare -r r1=rv"}))
 	}
-	add(kit.Pick(r, []string{"a=(1 2 3)", "a=(one)", "a=(x 'y z' w v)", "declare -a a=(1 2)", "a=(x '' z)", "a=(p q r s t); unset 'a[4]' 'a[3]'"}))
+	add(kit.Pick(r, []string{"a=(1 2 3)", "a=(one)", "a=(x 'y z' w v)", "declare -a a=(1 2)", "a=(x '' z)", "a=(p q r s t); unset 'a[4]' 'a[3]'", "a=(p q r s t); unset 'a[1]'", "a=([0]=x [5]=y [9]=z)", "a=(h1 h2 h3); unset 'a[0]'"}))
 	if r.Chance(2, 3) {
 		add(kit.Pick(r, []string{"sp=([2]=x [5]=y)", "sp=([1]=q)", "sp=(a b); sp[7]=far"}))
 	}
@@ -50,8 +50,18 @@ func genSetup(r *kit.Rand, inFunc bool) []string {
 		add("f2() { s2=set-by-f2; }")
 	}
 	if r.Chance(1, 2) {
-		add("shopt -s expand_aliases")
+		// the alias table exists whether or not aliases are expanded
+		if r.Chance(2, 3) {
+			add("shopt -s expand_aliases")
+		}
 		add("alias al='echo al-body'")
+		if r.Chance(1, 3) {
+			add("alias an='echo an-body' ao=x")
+		}
+		if r.Chance(1, 2) {
+			// alias bodies of three and five words: slices with spare capacity
+			add("alias a3='echo -n x' a5='echo a b c d'")
+		}
 	}
 	if r.Chance(1, 3) {
 		add(kit.Pick(r, []string{"set -o noglob", "shopt -s nullglob", "shopt -s dotglob", "set -o pipefail", "shopt -s extglob"}))
@@ -77,11 +87,11 @@ func genMutations(r *kit.Rand, n int, inFunc bool, quiet bool) []string {
 		"a+=([1]=X)", "a+=([0]=Z w)", "a+=([-1]=neg)", "sp+=([2]=chg)", "sp+=([5]=chg [9]=far)", "m+=([k]=new)", "m+=([q]=1)", "read -a sp <<< 's1 s2'", "unset 'm[k2]'", "declare -A m", "export a", "readonly sp", "declare -x m",
 		"pushd >/dev/null 2>&1", "popd -n >/dev/null 2>&1", "pushd -n /home/d2 >/dev/null 2>&1", "pushd +1 >/dev/null 2>&1", "popd +0 >/dev/null 2>&1", "cd - >/dev/null 2>&1", "dirs -c 2>/dev/null",
 		": ${a[1]:=dflt}", ": ${a[0]:=x}", ": ${sp[3]=hole}", ": ${sp[-1]:=neg}", ": ${a[7]=far}", ": ${m[k]:=dm}", ": ${m[nk]=nv}", ": ${s1:=ds}", ": ${s3=unset-default}", "echo ${la[1]:=ld} >/dev/null",
-		"echo -e 'x\\ty' >/dev/null", "echo -e \"$s1\\n\" >/dev/null", "printf '%b %s %d\\n' 'a\\tb' \"$s1\" 3 >/dev/null", "printf '%q\\n' \"$s2\" >/dev/null", "echo -n $s1 >/dev/null", "type f1 al echo >/dev/null 2>&1", "command -v f1 >/dev/null", "test -d /home/d1 && [ -f /home/f1.txt ]", "[[ $s1 == f* && -n $s2 ]]", "echo /home/d*/ *.txt >/dev/null", "echo {1..3} ~ $((1+2)) >/dev/null", "pwd >/dev/null", "dirs >/dev/null", "hash 2>/dev/null", "times >/dev/null", "help echo >/dev/null 2>&1", "true; false; :", "echo ${s1@Q} ${a[@]@Q} ${!m[@]} >/dev/null", "x=$(echo -e 'c\\ts')", "cat <<< \"$s1\" >/dev/null", "cat <<EOF >/dev/null\n$s1 ${a[0]}\nEOF", "trap 'echo -e t' ERR", "declare -p s1 a m >/dev/null 2>&1", "alias >/dev/null", "shopt >/dev/null", "set +o >/dev/null", "wait",
+		"echo -e 'x\\ty' >/dev/null", "echo -e \"$s1\\n\" >/dev/null", "printf '%b %s %d\\n' 'a\\tb' \"$s1\" 3 >/dev/null", "printf '%q\\n' \"$s2\" >/dev/null", "echo -n $s1 >/dev/null", "type f1 al echo >/dev/null 2>&1", "command -v f1 >/dev/null", "test -d /home/d1 && [ -f /home/f1.txt ]", "[[ $s1 == f* && -n $s2 ]]", "echo /home/d*/ *.txt >/dev/null", "echo {1..3} ~ $((1+2)) >/dev/null", "pwd >/dev/null", "dirs >/dev/null", "hash 2>/dev/null", "times >/dev/null", "help echo >/dev/null 2>&1", "true; false; :", "echo ${s1@Q} ${a[@]@Q} ${!m[@]} >/dev/null", "x=$(echo -e 'c\\ts')", "cat <<< \"$s1\" >/dev/null", "cat <<EOF >/dev/null\n$s1 ${a[0]}\nEOF", "trap 'echo -e t' ERR", "declare -p s1 a m >/dev/null 2>&1", "alias >/dev/null", "a3 arg1 >/dev/null 2>&1", "a5 z >/dev/null 2>&1", "al more args >/dev/null 2>&1", "a3 $s1 >/dev/null 2>&1; a3 other >/dev/null 2>&1", "shopt >/dev/null", "set +o >/dev/null", "wait",
 		"((s1=5))", "let 's2=7'", "printf -v 'a[1]' %s pv 2>/dev/null", "read 'a[2]' <<< rd", "for a in loopvar; do :; done", "for s1 in l1 l2; do :; done", "select_var=1", "declare -n nref=s1; nref=via-nameref", "declare -n aref=a; aref[0]=via-nameref", "unset -v s2", "export -n e1", "declare +r r1 2>/dev/null", "local_in_f() { local s1=inner; s2=outer-from-func; a[0]=from-func; }; local_in_f",
 		"a[0]=z", "a+=(n)", "a+=x", "a[5]=q", "a[-1]=neg", "unset 'a[1]'", "unset a", "a=(re set)", "a[1]+=app",
-		"sp[3]=new", "sp+=(w)", "unset 'sp[2]'", "sp+=x", "sp[2]=chg",
-		"m[k]=changed", "m[new]=1", "m+=([z]=1)", "unset 'm[k]'", "m[k]+=app",
+		"sp[3]=new", "sp+=(w)", "unset 'sp[2]'", "sp+=x", "sp[2]=chg", "unset 'sp[5]'", "unset 'sp[7]'", "unset 'sp[1]'", "unset 'sp[-1]'", "unset 'sp[-1]' 'sp[-1]'", "unset 'a[-1]'", "unset 'a[4]'", "unset 'a[9]'", "unset 'a[0]'", "unset 'a[2]'", "unset 'a[-1]'; a+=(after)", "unalias an 2>/dev/null", "unalias -a", "alias ao=changed", "alias new1=n",
+		"m=(k1 v1 k2 v2)", "m=(k1 v1); m=(k1 v1)", "m[k]=changed", "m[new]=1", "m+=([z]=1)", "unset 'm[k]'", "m[k]+=app",
 		"declare -g gnew=1", "export s1", "export enew=1", "readonly s2", "e1=changed", "unset e1", "r1=try-to-change-readonly", "declare +x e1",
 		"f1() { echo changed; }", "unset -f f1", "fnew() { :; }", "f2",
 		"alias al='echo changed'", "unalias al", "alias an=x", "shopt -s expand_aliases",
@@ -194,7 +204,13 @@ func genFaults(r *kit.Rand, kinds []string) []Fault {
 	}
 	var out []Fault
 	for i := 0; i < n; i++ {
-		out = append(out, Fault{Kind: kit.Pick(r, kinds), N: r.Intn(4), Arg: r.Intn(40)})
+		// mostly the first or second operation of that kind, so that the
+		// fault actually fires; sometimes a later one
+		n := r.Intn(2)
+		if r.Chance(1, 4) {
+			n = r.Intn(5)
+		}
+		out = append(out, Fault{Kind: kit.Pick(r, kinds), N: n, Arg: r.Intn(40)})
 	}
 	return out
 }
